@@ -149,6 +149,9 @@ def run(repo, rep, tier):
         "nothing borrowed from `other` is stored into `self` (ownership lattice of C06); fillsparksql merges with `+=`. "
         "Decides the shape of the in-place merge, not value-level equality under rounding."
     )
+    rep.extra["explanation"] += " " + (
+        'Later additions to R7.1: children of key-addressed slots are paired by key; NaN discipline of in-place merges; on EVERY returning path every content field has been merged (must-analysis over the CFG); for the scalar leaves merged in place the new state equals the state of self + other as rational functions.'
+    )
     rep.not_decided += ["value-level equality of += and + under floating-point rounding"]
     prims, _ = primitives(repo)
     models = build_models(repo)
